@@ -11,6 +11,10 @@ THEOREMS = ["c02_reopen_same_walk", "c02_walk_determined", "c02_last_write_wins"
 # two handles to one owner, both having used the same link list; the list is emptied through one and
 # filled again through the other (a cached backend of a dropped container group must not swallow it)
 PRELUDES = [
+    # a multi-tag re-pointed to a kept-id COPY of its positions array (same id, another entity): the last assignment wins
+    [["create", 0, "CBlocks", "B", "t", []], ["create", 1, "CDataArrays", "p", "t", [1, 2, 3]], ["create_mtag", 1, "m", "t", 2],
+     ["copy", 1, 2, "p2", True, True], ["set_link", 3, "RPositions", 4], ["set_link", 3, "RExtents", 4], ["set_link", 3, "RExtents", 2],
+     ["reopen", False]],
     [["create", 0, "CSections", "m", "t", []], ["create", 0, "CBlocks", "B", "t", []], ["create", 2, "CSources", "leaf", "t", []],
      ["create", 2, "CGroups", "g", "t", []], ["create", 2, "CDataFrames", "df", "t", [1, 2]],
      ["set_link", 3, "RMetadata", 1], ["set_link", 3, "RMetadata", None], ["set_link", 4, "RMetadata", 1], ["set_link", 4, "RMetadata", None],
@@ -62,6 +66,8 @@ def predicate(h):
                     out.append(("a successful write through a handle is not visible through fresh objects", i,
                                 {"op": op, "stored": w[pos[0] + HEADER_ATTR[op[2]]]}))
     for i, op in enumerate(h["ops"]):
+        if h["infos"][i].get("alias") and h["results"][i][0] == "ok":
+            out.append(("the last link assignment is not the link in force (the link leads elsewhere)", i, {"op": op, "what": h["infos"][i]["alias"]}))
         if op[0] == "reopen" and i > 0 and h["results"][i][0] == "ok":
             if tr[i][1] != tr[i - 1][1]:
                 out.append(("the walk after reopening differs from the walk before closing", i, {"op": op}))
